@@ -7,9 +7,12 @@ import (
 	"fmt"
 	zlog "github.com/rs/zerolog/log"
 	"os"
+	"reflect"
 	"sync"
+	"sync/atomic"
 	"testing"
 	"time"
+	"unsafe"
 
 	"github.com/rs/zerolog"
 	"pgregory.net/rapid"
@@ -644,5 +647,40 @@ func TestReplay(t *testing.T) {
 	}
 	if msg != "" {
 		fail(t, "replay", json.RawMessage(b), msg)
+	}
+}
+
+// TestCounterWrap: a BasicSampler that has already been asked 2^32-k times (its counter is put there
+// directly; running that many calls takes minutes) must keep its every-Nth cadence across the next
+// calls. On the tree as it stands it does not unless N divides 2^32: recorded as known finding KF-C13-1
+// (the signature: the first deviation is exactly where the 32-bit counter wraps, and N is not a power of two).
+func TestCounterWrap(t *testing.T) {
+	for _, N := range []uint32{2, 3, 4, 7, 10, 16} {
+		s := &zerolog.BasicSampler{N: N}
+		f := reflect.ValueOf(s).Elem().FieldByName("counter")
+		if !f.IsValid() || f.Kind() != reflect.Uint32 {
+			t.Fatalf("HARNESS-ERROR: BasicSampler has no uint32 field named counter")
+		}
+		const before = 6
+		atomic.StoreUint32((*uint32)(unsafe.Pointer(f.UnsafeAddr())), ^uint32(0)-before+1) // 2^32-before calls made
+		made := uint64(1)<<32 - before
+		firstBad := -1
+		for i := 0; i < 40; i++ {
+			made++
+			want := made%uint64(N) == 1 // call number `made` of the sampler's life
+			if got := s.Sample(zerolog.InfoLevel); got != want && firstBad < 0 {
+				firstBad = i
+			}
+		}
+		rec.Case([]byte(fmt.Sprintf("counter wrap N=%d", N)), true, "counter-wrap")
+		if firstBad < 0 {
+			continue
+		}
+		if firstBad >= before-1 && firstBad <= before+int(N) && N&(N-1) != 0 {
+			fmt.Println("KNOWN-REPRODUCED KF-C13-1")
+			continue
+		}
+		c := Case{Spec: &Spec{Kind: "basic", N: N}, Calls: []Call{{Lvl: 1}}, Warmup: int(firstBad)}
+		fail(t, "counterwrap", c, fmt.Sprintf("BasicSampler{N:%d}: after 2^32-%d calls the cadence breaks at call +%d, which is not where the 32-bit counter wraps", N, before, firstBad))
 	}
 }
